@@ -1061,10 +1061,92 @@ def run_prop(pid, tier):
                 ctx.violation(sig, what, {"witness": witness, "case": str(r["spec"])})
     if pid == "C18":
         decoder_cli(ctx)
+    if pid == "C16":
+        decoder_history(ctx, ["hrstoppm", "pixtopgm", "maxtoppm", "mgetoppm"])
+    if pid == "C17":
+        decoder_history(ctx, ["rattoppm", "cm3toppm"])
     ctx.extra["solver"] = {"z3": smt.z3_version()}
     ctx.assume("iotostr / strtoio / pack are the identity on single bytes 0..255 (latin-1); f.read(n) returns min(n, remaining) bytes; ord('') raises TypeError; sys.exit and exceptions = failure reported")
     ctx.assume("run lengths above the unwinding bound are covered only at the listed boundary values; fixed-size formats are checked on prefixes (uniform loop bodies) and by concrete truncation sweeps of one well-formed file")
     return ctx
+
+
+def history_files():
+    """two different well-formed pictures per format (different palettes and contents; the second one's first records
+    refer back to state a careless decoder might keep from the first: copy-up / copy-left lines, low palette slots)"""
+    files = {}
+    pal_a, pal_b = bytes(range(16)), bytes((63 - 3 * i) % 64 for i in range(16))
+    files["hrstoppm"] = [(pal_a + bytes((i * 7) % 256 for i in range(160 * 192)), (320, 192, None)), (pal_b + bytes((i * 11 + 5) % 256 for i in range(160 * 192)), (320, 192, None))]
+    files["pixtopgm"] = [(bytes((i * 5) % 256 for i in range(128)), ()), (bytes((255 - i) % 256 for i in range(128)), ())]
+    files["maxtoppm"] = [(bytes([0, 0x18, 0, 0, 0]) + bytes((i * 3) % 256 for i in range(6144)), (0, False, 256, None, None, False)),
+                         (bytes([0, 0x18, 0, 0, 0]) + bytes((i * 13 + 1) % 256 for i in range(6144)), (3, False, 256, None, None, False))]
+    head_m = lambda pal: bytes([0]) + pal + bytes([0, 0xFF]) + bytes(S.MGE_TITLE) + bytes([7, 0x21])  # noqa: E731
+    files["mgetoppm"] = [(head_m(pal_a) + bytes((i * 3) % 256 for i in range(32000)), ()), (head_m(pal_b) + bytes((i * 9 + 2) % 256 for i in range(32000)), ())]
+    head_r = lambda pal: bytes([0xEE, 1, 0]) + pal  # noqa: E731
+    body_r = lambda k: bytes(b for i in range(199 * 160) for b in ([(i * k) % 0xEE]))  # noqa: E731  (never the escape byte)
+    files["rattoppm"] = [(head_r(pal_a) + body_r(3), ()), (head_r(pal_b) + body_r(7), ())]
+    head_c = lambda pal: bytes([0x01]) + pal + bytes([1, 2] + [0] * 8 + [0x80, 0])  # noqa: E731
+    raw_lines = lambda k: b"".join(bytes([200]) + bytes((j * k + ln) % 256 for j in range(160)) for ln in range(192))  # noqa: E731
+    # second picture: every byte "same as the byte above" (first stream bit 1 = look at the second stream, whose bit 0 = copy
+    # up); its first line therefore shows whatever the line buffer holds when the picture starts
+    up_lines = b"".join(bytes([20]) + bytes([0xFF] * 20) + bytes([0x00] * 20) for _ in range(192))
+    files["cm3toppm"] = [(head_c(pal_a) + bytes([192]) + raw_lines(3), ()), (head_c(pal_b) + bytes([192]) + up_lines, ())]
+    return files
+
+
+def decoder_history(ctx, decoders):
+    """decoding picture B after picture A in the same process gives what a fresh process gives for B (and A again gives A):
+    the decoders keep no state between pictures"""
+    import importlib
+    import io
+    import json
+    import subprocess
+    import sys
+
+    from vf.core import REPO
+
+    files = history_files()
+    for modname in decoders:
+        mod = importlib.import_module("coco." + modname)
+        (raw_a, args_a), (raw_b, args_b) = files[modname]
+
+        def dec(raw, args):
+            import contextlib
+
+            out = io.BytesIO()
+            with contextlib.redirect_stderr(io.StringIO()):
+                try:
+                    r = mod.convert(io.BytesIO(raw), out, *args)
+                    return ("ok" if r is not False else "refused", out.getvalue())
+                except BaseException as e:  # noqa: BLE001
+                    return ("exc:" + type(e).__name__, out.getvalue())
+
+        code = ("import sys, io, json, hashlib; sys.path.insert(0, %r); import importlib; m = importlib.import_module('coco.%s'); out = io.BytesIO()\n"
+                "try:\n    r = m.convert(io.BytesIO(bytes.fromhex(sys.stdin.read())), out, *%r); st = 'ok' if r is not False else 'refused'\n"
+                "except BaseException as e:\n    st = 'exc:' + type(e).__name__\n"
+                "print(json.dumps([st, hashlib.sha1(out.getvalue()).hexdigest(), len(out.getvalue())]))" % (REPO, modname, tuple(args_b)))
+        pr = subprocess.run([sys.executable, "-c", code], input=raw_b.hex(), capture_output=True, text=True, timeout=300)
+        if pr.returncode != 0:
+            ctx.harness_gap(f"{modname}: fresh-process decode failed: {pr.stderr[-200:]}")
+            continue
+        import hashlib
+
+        fresh = json.loads(pr.stdout)
+        a1 = dec(raw_a, args_a)
+        b1 = dec(raw_b, args_b)
+        a2 = dec(raw_a, args_a)
+        ctx.stats["programs"] += 3
+        ctx.stats["obligations"] += 2
+        ctx.stats["traces_validated_against_impl"] += 1
+        if [b1[0], hashlib.sha1(b1[1]).hexdigest(), len(b1[1])] != fresh:
+            i = None
+            ctx.violation(f"history:{modname}:second-picture-differs-from-fresh-process", f"{modname}: picture B decoded after picture A: {b1[0]}, {len(b1[1])} bytes, sha1 {hashlib.sha1(b1[1]).hexdigest()[:10]}; in a fresh process {fresh[0]}, {fresh[2]} bytes, sha1 {fresh[1][:10]}", {"decoder": modname})
+        else:
+            ctx.stats["identity"] += 1
+        if a1 != a2:
+            ctx.violation(f"history:{modname}:same-picture-twice-differs", f"{modname}: picture A decoded before and after picture B gives different output", {"decoder": modname})
+        else:
+            ctx.stats["identity"] += 1
 
 
 def decoder_cli(ctx):
